@@ -16,6 +16,7 @@ import RaftVerif.Properties.C06
 import RaftVerif.Properties.C08
 import RaftVerif.Proofs.LeaderSpecs
 import RaftVerif.Model.Lifecycle
+import RaftVerif.Properties.C15
 set_option linter.unusedSimpArgs false
 set_option linter.unusedVariables false
 namespace Raft
@@ -192,5 +193,45 @@ theorem C14_start_wf (n : Node) (now : Nat) (rf st : Bool) (d : Node.Disk) (hs :
     rw [hsn] at hb
     exact ⟨by simp only; rw [hrd.2.2]; exact hw, by simp only; rw [hrd.2.2, hk.2.2.1]; exact hb,
            by simp only; rw [hk.1, hk.2.2.1]; exact Nat.le_refl _, by simp only; rw [hk.1, hk.2.1]; exact Nat.le_refl _⟩
+
+/-! ### Cluster level: a crash at any point, then restart and rejoin
+
+    In the replication-layer model a crash is a step (log, term and vote persist — what C12/C13 give for
+    every crash point between and inside the storage writes — role and commit index are lost), so the
+    safety theorems already quantify over runs with crashes. Spelled out for C14: -/
+
+/-- **Nothing applied anywhere is contradicted after a crash and restart**: for a crash of any node in
+    any reachable state and everything that happens afterwards, the committed prefixes of any two
+    nodes, one taken before the crash and one at any later time, are comparable. -/
+theorem C14_safety_across_crash {cfg : Config} (hnd : cfg.voterIds.Nodup) {s s'' : Repl.AState} (hr : Repl.Reachable cfg s) (n : Nat)
+    (hafter : Repl.ReachableFrom cfg { s with nodes := Repl.setNode s n { s.nodes n with role := .follower, commit := 0 } } s'')
+    (a b : Nat) :
+    (s.nodes a).log.take (s.nodes a).commit <+: (s''.nodes b).log.take (s''.nodes b).commit ∨
+    (s''.nodes b).log.take (s''.nodes b).commit <+: (s.nodes a).log.take (s.nodes a).commit := by
+  have hstep : Repl.Step cfg s { s with nodes := Repl.setNode s n { s.nodes n with role := .follower, commit := 0 } } := Repl.Step.crash s n
+  have hfrom : Repl.ReachableFrom cfg s s'' := by
+    have h1 : Repl.ReachableFrom cfg s _ := Repl.ReachableFrom.step Repl.ReachableFrom.base hstep
+    exact Repl.ReachableFrom.trans h1 hafter
+  exact Repl.state_machine_safety hnd hr hfrom a b
+
+/-- **The restarted node can rejoin and catch up, and loses nothing it had applied**: after the crash of
+    any node there is a continuation at the end of which every voter (the restarted one included, if it
+    is one) holds the leader's log with the same commit index, and everything that was committed
+    before the crash — in particular what the crashed node itself had applied — is a prefix of it. -/
+theorem C14_restarted_node_can_catch_up {cfg : Config} (hnd : cfg.voterIds.Nodup) (hne : cfg.voterIds ≠ []) {s : Repl.AState}
+    (hr : Repl.Reachable cfg s) (n : Nat) :
+    ∃ s' l, Repl.ReachableFrom cfg { s with nodes := Repl.setNode s n { s.nodes n with role := .follower, commit := 0 } } s' ∧
+      (s'.nodes l).role = .leader ∧
+      (∀ v, cfg.isVoter v = true → (s'.nodes v).log = (s'.nodes l).log ∧ (s'.nodes v).commit = (s'.nodes l).log.length) ∧
+      ∀ a, (s.nodes a).log.take (s.nodes a).commit <+: (s'.nodes l).log := by
+  have hstep : Repl.Step cfg s { s with nodes := Repl.setNode s n { s.nodes n with role := .follower, commit := 0 } } := Repl.Step.crash s n
+  have hr1 := Repl.Reachable.step hr hstep
+  obtain ⟨s', l, hf, hl, hall, hkeep⟩ := C15_convergence_keeps_all_committed hnd hne hr1
+  refine ⟨s', l, hf, hl, hall, ?_⟩
+  intro a
+  have hi := Repl.inv_reachable hnd hr
+  have hc := (hi.commit_ok a).2
+  have hc1 := Repl.committed_stable hnd hr (Repl.ReachableFrom.step Repl.ReachableFrom.base hstep) hc
+  exact hkeep _ _ hc1
 
 end Raft
